@@ -386,3 +386,123 @@ def run_cert_images(cases, impl, drv, drv_key, tag, timeout=1800):
 
 def sh_run(cmd, timeout):
     return sh(cmd, timeout=timeout)
+
+
+# ------------------------------------------------------------------ in-Coq cross-check (extraction)
+XCHECK_VT = {"u8": "VUnsigned 1", "u16": "VUnsigned 2", "u32": "VUnsigned 4", "u64": "VUnsigned 8", "usize": "VUnsigned 8",
+             "u128": "VUnsigned 16", "user3": "VUnsigned 3", "i8": "VSigned 1", "i16": "VSigned 2", "i32": "VSigned 4",
+             "i64": "VSigned 8", "isize": "VSigned 8", "i128": "VSigned 16", "empty": "VEmpty"}
+
+
+def xcheck_select(cases, limit=6):
+    """small cases to be re-evaluated inside Coq (vm_compute on the Gallina model itself); they are
+    asked for their serialised image (ops letter X).  Both variants and all kinds first, then any."""
+    def eligible(c):
+        if c.entry not in ("values", "build") or c.vt not in XCHECK_VT or "S" not in c.ops or "N" in c.ops or c.var not in ("bw", "cw"):
+            return False
+        if c.entry == "build" and (c.vt in ("u8", "i8", "empty") or [v for _, v in c.pats] != list(range(len(c.pats)))):
+            return False
+        if not (1 <= len(c.pats) <= 8) or any(len(p) > 9 for p, _ in c.pats) or any(len(h) > 16 for h in c.hays) or c.nfb > 64:
+            return False
+        if c.var == "cw":
+            try:
+                top = max(ord(ch) for p, _ in c.pats for ch in p.decode("utf-8"))
+                for h in c.hays:
+                    h.decode("utf-8")
+            except (UnicodeDecodeError, ValueError):
+                return False
+            if top >= 0x400:        # the serialised code mapper has one u32 per code point below the largest one
+                return False
+        return True
+    el = [c for c in cases if eligible(c)]
+    picked, seen = [], set()
+    for c in el:
+        if (c.var, c.kind) not in seen and len(picked) < limit:
+            seen.add((c.var, c.kind))
+            picked.append(c)
+    for c in el:
+        if len(picked) >= limit:
+            break
+        if c not in picked:
+            picked.append(c)
+    for c in picked:
+        if "X" not in c.ops:
+            c.ops += "X"
+    return picked
+
+
+def _coq_nlist(bs):
+    return "[" + "; ".join(str(b) for b in bs) + "]"
+
+
+def _coq_trips(items):
+    """items: ['s,e,v', ...] as printed by the driver -> Coq term of type list (nat * nat * Z)"""
+    out = []
+    for it in items:
+        s, e, v = it.split(",")
+        out.append(f"({s}%nat, {e}%nat, ({v})%Z)")
+    return "[" + "; ".join(out) + "]"
+
+
+def xcheck_run(picked, impl, model, tag, log):
+    """-> (ok, detail).  Writes build/runs/<tag>/xcheck.v and evaluates it with coqc: for every picked
+    case the Gallina model, run by vm_compute, must give the bytes the IMPLEMENTATION serialised and
+    the match lists the extracted driver printed."""
+    terms, ids = [], []
+    for c in picked:
+        il = impl.get(c.id, [])
+        ml = model.get(c.id, [])
+        hexl = [l for l in il if l.startswith("IMGHEX ")]
+        if not hexl or not any(l == "BUILD ok" for l in ml):
+            continue
+        img = bytes.fromhex(hexl[0].split()[1])
+        if len(img) > 40000:
+            continue
+        md = lines_by_tag(ml)
+        hs = []
+        for j, h in enumerate(c.hays):
+            def get(tagname):
+                for parts in md.get(tagname, []):
+                    if parts and parts[0] == str(j):
+                        if any(x.startswith("!") for x in parts[1:]):
+                            return None
+                        return "Some " + _coq_trips(parts[1:])
+                return "None"
+            fields = [get("OVL"), get("FIND"), get("NOS"), get("LEFT")]
+            if any(f is None for f in fields):
+                continue
+            hs.append("{| he_hay := %s; he_ovl := %s; he_find := %s; he_nos := %s; he_left := %s |}"
+                      % (_coq_nlist(h), *fields))
+        if c.var == "bw":
+            pv = "[" + "; ".join(f"({_coq_nlist(p)}, ({v})%Z)" for p, v in c.pats) + "]"
+        else:
+            pv = "[" + "; ".join(f"({_coq_nlist([ord(ch) for ch in p.decode('utf-8')])}, ({v})%Z)" for p, v in c.pats) + "]"
+        fn = "xc_bw" if c.var == "bw" else "xc_cw"
+        terms.append(f"({fn} {c.kind} {c.nfb} ({XCHECK_VT[c.vt]}) {pv} {_coq_nlist(img)} [{'; '.join(hs)}])")
+        ids.append(c.id)
+    if not terms:
+        return True, "no case sampled"
+    wd = os.path.join(BUILD, "runs", tag)
+    os.makedirs(wd, exist_ok=True)
+    path = os.path.join(wd, "xcheck.v")
+    with open(path, "w") as f:
+        f.write("(* written by tools/vlib.py: sampled cases re-evaluated inside Coq *)\n"
+                "From DV Require Import Model.Base Model.Ser Gen.CrossCheck.\nLocal Open Scope N_scope.\n")
+        f.write("Definition xcheck_results : list bool :=\n  [" + ";\n   ".join(terms) + "].\n")
+        f.write("Eval vm_compute in xcheck_results.\n")
+    rc, out = sh(f"ulimit -s unlimited 2>/dev/null || ulimit -s 4000000 2>/dev/null; timeout 600 coqc -noglob -Q {COQ} DV {path}", cwd=wd, timeout=650)
+    for ext in (".vo", ".vos", ".vok", ".glob"):
+        try:
+            os.remove(path[:-2] + ext)
+        except OSError:
+            pass
+    flat = " ".join(out.split())
+    m = re.search(r"= \[([a-z; ]*)\]", flat)
+    log.append(("coqc xcheck.v", rc, out[-1500:]))
+    if rc != 0 or not m:
+        return False, f"coqc failed on {path}: {out[-400:]}"
+    vals = [x.strip() for x in m.group(1).split(";") if x.strip()]
+    bad = [i for i, v in zip(ids, vals) if v != "true"]
+    if len(vals) != len(ids) or bad:
+        return False, f"the model evaluated inside Coq disagrees with the implementation's image / the extracted driver on {bad or ids}"
+    return True, f"{len(ids)} cases re-evaluated inside Coq (vm_compute): " + " ".join(ids)
